@@ -183,6 +183,8 @@ XmlElement::XmlElement(istream& ifs, int subidx, XmlElement *parent, int txtline
 			else
 				++root_->line_; // drop through
 		case '\r':
+			if (state == otag && !tmpotag.empty())
+				state = oattr; // a line break ends the tag name like any other white space
 			continue;
 		default:
 			break;
